@@ -59,14 +59,16 @@ def main(run):
             f = run.prove if n <= 4 else run.prove_parallel
             f(f"linear[n={n},size={size},{gap},b={budget}]", E.sc_linear_env, {"n": n, "size": size, "gap": gap, "budget": budget}, pkg=pkg)
         run.prove(f"reset[n={n},{gap}]", E.sc_linear_reset, {"n": n, "gap": gap}, pkg=pkg)
+    # hidden games of ANY class (no superadditivity assumption): the observation clause must not depend on the class
+    run.prove("linear.any_class[n=3,size=2]", E.sc_linear_env, {"n": 3, "size": 2, "gap": "l1_norm", "cls": None}, pkg=pkg)
     run.discharge()
     rows = []
-    for gk, comp in (("factory", "superadditive_cached"), ("noisy_factory", "superadditive_cached"), ("graph_cycle", "superadditive"),
+    for gk, comp in (("xos2", "sam_apx_1"), ("oxs", "sam_apx_1"), ("factory", "superadditive_cached"), ("noisy_factory", "superadditive_cached"), ("graph_cycle", "superadditive"),
                      ("xos", "sam_apx_1"), ("k_budget_generator", "sam_apx_10")):
         for n in (3, 4, 5, 6):
             if comp == "superadditive" and n == 6:
                 continue
-            e, w = native_runs(run, n, gk, comp, 2 if quick else 15)
+            e, w = native_runs(run, n, gk, comp, (6 if gk in ('xos2', 'oxs') and n <= 5 else 2) if quick else 15)
             run.native_evals += e
             run.native_distinct.update(("lin", gk, n, j) for j in range(e))
             rows.append({"generator": gk, "computer": comp, "n": n, "steps_checked": e, "failure": w})
